@@ -392,6 +392,14 @@ def check_owning_drops(ctx, res, prop):
                 why.append("a path returns without clear_no_drop (the moved-out entries would be dropped again with the table)")
             if not g.all_paths_pass(0, [c.bb for c in clears], [loop_h]):
                 why.append("a path reaches clear_no_drop without running the exhaustion loop (unconsumed entries leak)")
+            # a table that is handed (back) to the cache must already have been emptied: every swap/replace of a table is dominated by the clear
+            swaps = ctx.eff.direct[db.path]["swap_table"]
+            for sc in swaps:
+                if not any(g.dominates(c.bb, sc.bb) for c in clears):
+                    why.append("the table is handed to the cache before it was marked empty (a panic while dropping the remaining entries leaves the "
+                               "cache owning moved-out entries)")
+                if loop_h is not None and not g.dominates(loop_h, sc.bb):
+                    why.append("the table is handed to the cache before the remaining entries were taken out")
             # the loop must be left only through the None edge of next(): the loop exit edge leaves from the switch on the call's result
             for c in nexts:
                 if c.bb in loop_blocks:
@@ -842,6 +850,7 @@ def c06(ctx, res):
                            rule="C06.4 tables emptied through sinks",
                            msg="`%s` empties a table without dropping its entries although they were not moved out first (keys and values leak)" % p)
     check_owning_drops(ctx, res, "C06")
+    c17(ctx, res)      # 3(i): a `&mut`-holding copy-out iterator must detach in its constructor (else a leaked iterator => double drop)
     # ---- 4. the cache's own Drop and clear(): drain through a sink; seal freed exactly once, after
     for (b, what) in ((r.trait_method("std::ops::Drop", "drop"), "Drop for the cache"), (r.method("clear"), "clear")):
         if b is None:
